@@ -148,6 +148,9 @@ func (m *Machine) noteAllocSlice(fr *Frame, s []Value, elem types.Type) {
 	}
 	if len(s) > 0 {
 		m.elemOwner[&s[0]] = sliceRef{s, 0}
+		if m.trackAllocs {
+			m.allocs = append(m.allocs, sliceRef{s, 0})
+		}
 	}
 	if fr != nil && fr.fn != nil && !isHarnessFrame(fr) {
 		m.allocLog = append(m.allocLog, cap(s))
